@@ -216,6 +216,35 @@ func main() {
 	sb.WriteString("\n(* the obligation a change to the code's locking breaks *)\n")
 	sb.WriteString("Theorem samlidp_discipline_ok : discipline_ok samlidp_program_checked entry_points_checked = true.\n")
 	sb.WriteString("Proof. vm_compute. reflexivity. Qed.\n")
+	// start-up points: the exported constructors of package samlidp that return a *Server, and the set-up methods
+	var starts []string
+	for _, k := range w.order {
+		fi := w.funcs[k]
+		if fi.decl == nil {
+			continue
+		}
+		if setupMethods[k] {
+			starts = append(starts, k)
+		}
+		if fi.recv == "" && fi.pkg == "samlidp" && ast.IsExported(fi.decl.Name.Name) && fi.decl.Type.Results != nil {
+			for _, r := range fi.decl.Type.Results.List {
+				if w.normalize(r.Type, fi.pkg) == "Server" {
+					starts = append(starts, k)
+					break
+				}
+			}
+		}
+	}
+	sort.Strings(starts)
+	sitems := make([]string, len(starts))
+	for i, e := range starts {
+		sitems[i] = coqStr(e)
+	}
+	sb.WriteString("\n(* start-up code: lock operations balanced, ordered and not re-entrant (accesses need no guard before the server is shared) *)\n")
+	sb.WriteString("Definition startup_points : list fname := [" + strings.Join(sitems, "; ") + "].\n")
+	sb.WriteString("Eval vm_compute in (discipline_report (strip_program samlidp_program_checked) startup_points).\n")
+	sb.WriteString("Theorem samlidp_startup_ok : startup_ok samlidp_program_checked startup_points = true.\n")
+	sb.WriteString("Proof. vm_compute. reflexivity. Qed.\n")
 	sb.WriteString("\n(* the four store methods are, action for action, the lock/access projection of the\n   operations of ConcurrencyStore.v, whose linearizability is proved there *)\n")
 	sb.WriteString("Theorem samlidp_store_projection_ok : store_projection_ok samlidp_program = true.\n")
 	sb.WriteString("Proof. vm_compute. reflexivity. Qed.\n")
